@@ -205,7 +205,7 @@ def stored_centres(spec):
 
 
 def strategy(tier):
-    return S.dataset_spec(max_vars=3, max_extra=2, modes=("raw", "raw", "decoded", "dask"),
+    return S.dataset_spec(max_vars=3, max_extra=2, modes=("raw", "raw", "decoded", "dask", "file"),
                           geom_kwargs={"twist": True})
 
 
